@@ -209,6 +209,13 @@ def shrink_list(items, fails, max_steps=200):
 def harness_main(prop, run, replay=None):
     """common __main__ of harness modules:  python -m harness.cXX <tier> <seed> <driver_ok> <out.json> [replay.json]"""
     warnings.filterwarnings("ignore")
+    try:
+        # the simplifier expands x^n into n factors: a random stack can ask for gigabytes; make that a MemoryError
+        import resource
+        lim = 12 * 1024 ** 3
+        resource.setrlimit(resource.RLIMIT_AS, (lim, lim))
+    except Exception:
+        pass
     tier, seed, driver_ok, out = sys.argv[1], int(sys.argv[2]), sys.argv[3] == "1", sys.argv[4]
     rp = None
     if len(sys.argv) > 5:
